@@ -87,7 +87,23 @@ impl Proxy {
             _ => 0,
         };
         let timeout = self.base_timeout + Duration::from_secs(extra) + if is_session || op.starts_with("e2e derive") { Duration::from_secs(40) } else { Duration::ZERO };
-        match self.raw(op, timeout) {
+        let mut answer = self.raw(op, timeout);
+        if answer.is_none() {
+            // confirmation: on a loaded machine the child can be starved for seconds.  The child is replaced,
+            // the session restored, and the operation repeated with ten times the time: a call that really
+            // never returns survives that too
+            self.restart();
+            let mut ready = true;
+            if !is_session {
+                if let Some(s) = self.last_session.clone() {
+                    ready = self.raw(&s, self.base_timeout * 10 + Duration::from_secs(40)).is_some();
+                }
+            }
+            if ready {
+                answer = self.raw(op, timeout * 10);
+            }
+        }
+        match answer {
             Some(l) => {
                 if is_session {
                     self.last_session = Some(op.to_string());
